@@ -5,6 +5,7 @@
 #[path = "../../bbs/src/common.rs"]
 mod common;
 
+mod bundles;
 mod clutil;
 
 mod c13;
